@@ -277,6 +277,8 @@ def resize_rule(chk, db):
 
 META = (META[0] + ' GAPSHIFT (a backward shift that follows an append covers exactly the old tail, as linear forms over begin / entry end / position); SWAPSYM (the arms of a member swap are mirror images under this <-> other); controls in fixtures/extra8_pos.hpp.', META[1])
 
+META = (META[0] + ' SELFMOVE (the compaction loops behind erase / erase_if never move-assign an element onto itself: (base, offset) positions per path).', META[1])
+
 
 def run(chk, tier):
     db = D.load("checks")
@@ -296,6 +298,8 @@ def run(chk, tier):
     _X8.gap_shift_area(chk, db, ['_vector/', '_inplace_vector/'])      # GAPSHIFT: append-then-shift inserts shift exactly the old tail
     _X8.swap_symmetry_area(chk, db, ['_vector/', '_inplace_vector/', '_stack/'])      # SWAPSYM: the two arms of a member swap mirror each other
     _X8.positive_controls(chk, D, ('SWAPSYM', 'GAPSHIFT'))
+    if _X8.self_move_area(chk, db, ['_algorithm/remove', '_algorithm/unique', '_vector/', '_inplace_vector/']) < 2:      # SELFMOVE
+        chk.analysis_broken('SELFMOVE: fewer than 2 compaction loops found (floor 2)')
     from ..rules import initform as _IF
     _IF.check(chk, db, ['_vector/', '_inplace_vector/', '_stack/'])      # INITFORM: forwarded packs direct-non-list-initialise
     cap_rule(chk, db)
